@@ -39,7 +39,11 @@ FN = ("fun c : (list mglyph * list (str * Z) * list str * list (str * Z) * list 
 
 GLY = [("a", 0x61), ("f_i", None), ("f_f_i", None), ("beh-ar", 0x628), ("alef-ar", 0x627), ("bet-hb", 0x5D1), ("acutecomb", 0x301),
        ("x.alt", None), ("T", 0x54), ("period", 0x2E)]
-CATV = {"base": 1, "ligature": 2, "mark": 3, "component": 4, "unassigned": 0, "bogus": 0}
+# (values that are not exactly one of the five category names are invalid and ignored -- also look-alikes that differ in case
+# or carry blanks)
+CATV = {"base": 1, "ligature": 2, "mark": 3, "component": 4, "unassigned": 0, "bogus": 0,
+        "Base": 0, "MARK": 0, "mark ": 0, " ligature": 0, "Component": 0, "marks": 0}
+LOOKALIKES = ["Base", "MARK", "mark ", " ligature", "Component", "marks"]
 
 
 def coord(rng):
@@ -48,7 +52,7 @@ def coord(rng):
                        rng.choice([Fr(0), Fr(0), Fr(1, 4), Fr(-1, 4), Fr(-1, 2), Fr(-1)])])
 
 
-def gen(rng):
+def gen(rng, lookalike=None):
     items = rng.sample(GLY, rng.randint(3, 8))
     glyphs = []
     # (direction suffixes also after another name component: entry.1.LTR / exit.1.LTR, entry.alt.RTL ...)
@@ -84,6 +88,12 @@ def gen(rng):
             cats["ghost"] = "base"
     fea = ""
     user_gdef = rng.random() < 0.15
+    if lookalike is not None and not user_gdef:
+        # always: two glyphs with a valid category and one whose value only LOOKS like a category name
+        ns = [n for n, _ in items]
+        cats[ns[0]] = "base"
+        cats[ns[1]] = LOOKALIKES[lookalike % len(LOOKALIKES)]
+        cats[ns[2]] = ["mark", "ligature"][lookalike % 2]
     if user_gdef:
         names = [g["name"] for g in glyphs]
         fea = "table GDEF {\n    GlyphClassDef [%s], , [%s], ;\n} GDEF;\n" % (names[0], names[1])
@@ -299,7 +309,7 @@ def explore(ctx):
     rng = ctx.subrng("gdef")
     cases, meta = [], []
     for i in range(ctx.budget(80, 600)):
-        desc = gen(rng)
+        desc = gen(rng, lookalike=(i // 4) if i % 4 == 2 else None)
         lib = rng.choice(["ufoLib2", "defcon"])
         case = {"font": jsonable(desc), "lib": lib}
         try:
